@@ -13,7 +13,7 @@ import os
 import errno
 import shutil
 
-from .. import probe, refmodel, cropkit, fsshim, sched
+from .. import probe, probe_core, refmodel, cropkit, fsshim, sched
 from ..common import quiet, exc_sig
 
 PID = "C11"
@@ -24,7 +24,7 @@ TECHNIQUE = ("runtime monitoring under a cooperative scheduler: real growers, re
 RULE = ("configurations: 1-3 growers (distinct batches, or the same batch twice) + a waiting reaper and/or a progress poller "
         "on crops of 1-3 batches with multi-chunk results; exhaustive up to partial-order equivalence (sleep-set DFS) for "
         "{1 grower + reaper, 1 batch}, {1 grower + poller}, {2 growers same batch + poller}, {2 growers distinct + reaper, "
-        "2 batches} (capped, see evidence), seeded random schedules for the larger ones; configurations whose first grower fails part-way through its result write with an error (ENOSPC injected by the shim) while a second grower of the same batch succeeds, by DFS and random schedules; the swept function seeds the global random generator; TMPDIR on another file system where the machine has one; a schedule is one execution, "
+        "2 batches} (capped, see evidence), seeded random schedules for the larger ones; configurations under an MPI launch (the first grower is rank 1: its function returns nothing useful and it must publish nothing); configurations whose first grower fails part-way through its result write with an error (ENOSPC injected by the shim) while a second grower of the same batch succeeds, by DFS and random schedules; the swept function seeds the global random generator; TMPDIR on another file system where the machine has one; a schedule is one execution, "
         "distinct by its Mazurkiewicz trace signature; non-trivial when it contains >= 2 actors' events interleaved")
 ASSUMPTIONS = [
     "interleaving granularity = Python-level file operations (create, each of <= 3 write prefixes, close, rename, stat, open, read, list, unlink)",
@@ -40,6 +40,7 @@ MIN_REACH = {
     "polls_during_write_in_progress": {"quick": 100, "thorough": 2000},
     "distinct_dfs_parts_exhausted": {"quick": 2, "thorough": 2},
     "growers_whose_result_write_failed_part_way": {"quick": 150, "thorough": 3000},
+    "growers_running_as_a_non_root_mpi_rank": {"quick": 150, "thorough": 3000},
 }
 TIME_BUDGET = {"quick": 400, "thorough": 3400}
 CASE_TIMEOUT = {"quick": 380, "thorough": 3000}
@@ -61,6 +62,11 @@ CONFIGS = {
     "g2same_reaper_wfail": (2, 2, [1, 1], True, 0),
     "g2same_poller_wfail": (2, 2, [1, 1], False, 2),
     "g3mixed_reaper_poller_wfail": (4, 2, [1, 2, 1], True, 2),
+    # the batch is grown under an MPI launch: the FIRST grower is rank 1 (its function returns nothing useful - the reduced
+    # value lives on rank 0 - and it must publish nothing), the second one is rank 0
+    "g2same_reaper_mpi": (2, 2, [1, 1], True, 0),
+    "g2same_poller_mpi": (2, 2, [1, 1], False, 2),
+    "g3mixed_reaper_poller_mpi": (4, 2, [1, 2, 1], True, 2),
 }
 
 
@@ -72,7 +78,8 @@ def cases(ctx):
     J = ctx.pick(2, 16)
     for cfg, cap in (("g2same_poller", ctx.pick(250, 8000)), ("g2_reaper", ctx.pick(250, 8000)),
                      ("g2same_reaper", ctx.pick(150, 8000)), ("g2same_reaper_wfail", ctx.pick(150, 4000)),
-                     ("g2same_poller_wfail", ctx.pick(100, 4000))):
+                     ("g2same_poller_wfail", ctx.pick(100, 4000)),
+                     ("g2same_reaper_mpi", ctx.pick(100, 4000)), ("g2same_poller_mpi", ctx.pick(80, 4000))):
         for j in range(J):
             yield {"cfg": cfg, "mode": "dfs", "cap": cap, "kind": "array:30", "part": [j, J]}
     # validation of the reduction itself: brute force over ALL interleavings vs. sleep sets
@@ -130,6 +137,7 @@ class World(object):
         self.w = {"mode": "grid", "combos": [["a", list(range(1, self.n + 1))]], "names": None, "cases": None}
         self.same_batch_twice = len(set(self.growers)) < len(self.growers)
         self.wfail = cfg.endswith("_wfail")
+        self.mpi = ["PMI_RANK", "OMPI_COMM_WORLD_RANK"][len(kind) % 2] if cfg.endswith("_mpi") else None
         self.resdir = os.path.join(self.root, ".xyz-" + NAME, "results")
 
     def fresh(self):
@@ -200,11 +208,23 @@ def run_schedule(world, chooser):
         return None
     fsshim.set_write_fault(write_fault if world.wfail else None)
 
-    def grower(i):
+    def grower(i, j=None):
         def f():
             crop = xyzpy.Crop(name=NAME, parent_dir=root)
-            xyzpy.grow(i, crop=crop, verbosity=0)
+            if world.mpi and j is not None:
+                # (an actor runs undisturbed from here to its first operation on the results directory, and grow() reads
+                #  the rank before that: each grower sees the rank set for it)
+                rank = 1 if j == 0 else 0
+                os.environ[world.mpi] = str(rank)
+                probe_core.TLS.nonroot = rank != 0
+                if rank != 0:
+                    nonroot.append(j)
+            try:
+                xyzpy.grow(i, crop=crop, verbosity=0)
+            finally:
+                probe_core.TLS.nonroot = False
         return f
+    nonroot = []
 
     def reaper():
         crop = xyzpy.Crop(name=NAME, parent_dir=root)
@@ -221,7 +241,7 @@ def run_schedule(world, chooser):
             polls.append((s0, nr, s1, ready, s2))
 
     for j, b in enumerate(world.growers):
-        S.add("g%d" % j, grower(b))
+        S.add("g%d" % j, grower(b, j))
     if world.reaper:
         S.add("reaper", reaper)
     if world.polls:
@@ -234,7 +254,9 @@ def run_schedule(world, chooser):
             S.run()
     finally:
         fsshim.set_write_fault(None)
-    return {"S": S, "injected": injected, "polls": polls, "truth": truth, "visible": visible, "writing": writing, "unmonitored": list(fsshim.UNMONITORED)}
+        if world.mpi:
+            os.environ.pop(world.mpi, None)
+    return {"S": S, "injected": injected, "nonroot": nonroot, "polls": polls, "truth": truth, "visible": visible, "writing": writing, "unmonitored": list(fsshim.UNMONITORED)}
 
 
 def judge(ctx, world, obs, case, extra_sig):
@@ -269,6 +291,7 @@ def judge(ctx, world, obs, case, extra_sig):
         if d:
             ctx.violation(wit, "reap(wait=True) returned a result that differs from the direct run: %s" % d, dict(sig, oracle="reap-exact"))
             nv += 1
+    ctx.count("growers_running_as_a_non_root_mpi_rank", len(obs.get("nonroot", ())))
     truth, visible = obs["truth"], obs["visible"]
     for (s0, nr, s1, ready, s2) in obs["polls"]:
         ctx.count("polls_checked")
